@@ -242,7 +242,7 @@ fn observe(sim: &des::net::SimBuilder<()>) -> Expect {
 
 // ---- document generator (feature bits) -------------------------------------------------
 
-const NBITS: u32 = 12;
+const NBITS: u32 = 13;
 
 fn gen(bits: u32) -> Vec<Ty> {
     let f = |k: u32| bits & (1 << k) != 0;
@@ -284,6 +284,12 @@ fn gen(bits: u32) -> Vec<Ty> {
     main.subs.push(Sub { name: "m", size: None, ty: "Mid".into(), ty_txt: if generic { format!("Mid({inner_concrete})") } else { "Mid".into() } });
     main.subs.push(Sub { name: "a", size: None, ty: "Leaf".into(), ty_txt: "Leaf".into() });
     main.subs.push(Sub { name: "c", size: Some(2), ty: if f(7) { "Leaf2".into() } else { "Leaf".into() }, ty_txt: if f(7) { "Leaf2".into() } else { "Leaf".into() } });
+    if f(12) {
+        // clusters of size one, addressed without and with an index
+        main.subs.push(Sub { name: "e", size: Some(1), ty: "Leaf".into(), ty_txt: "Leaf".into() });
+        main.subs.push(Sub { name: "e2", size: Some(1), ty: "Leaf".into(), ty_txt: "Leaf".into() });
+        main.conns.push(Conn { a: acc("e/g"), b: acc("e2/g"), link: f(10) });
+    }
     if f(8) {
         main.conns.push(Conn { a: acc("a/g"), b: acc("m/up"), link: false });
     }
@@ -507,13 +513,13 @@ impl Property for C18 {
     }
     fn rule(&self, tier: Tier) -> String {
         format!(
-            "conformance: all 2^{NBITS} = 4096 documents of the feature-bit grammar (cluster gates, generic Mid with type argument, inherited argument type, several fields typed with the same parameter, submodule cluster, nested/cluster/indexed connections with and without link, inherited cluster element type, cluster-to-cluster and indexed connections at the top level) built with nodes_from_ndl and compared with a reference elaborator (modules with registered software, gate clusters, connections incl. link metrics and queue size); \
+            "conformance: all 2^{NBITS} = 8192 documents of the feature-bit grammar (cluster gates, generic Mid with type argument, inherited argument type, several fields typed with the same parameter, submodule clusters incl. size one, nested/cluster/indexed connections with and without link, inherited cluster element type, cluster-to-cluster and indexed connections at the top level) built with nodes_from_ndl and compared with a reference elaborator (modules with registered software, gate clusters, connections incl. link metrics and queue size); \
              semantic mutations: {} single-point mutations (one per error cause of the statement) applied to {} generated documents, each must yield an error; \
              textual mutations: every scalar of {} base documents replaced by each of {} garbled/dangling tokens, outcome must be a network or an error, never a panic; \
              non-trivial = document that has at least one connection (conformance) or every mutated document (totality)",
             SEM.len(),
-            "all 4096",
-            tier.pick("4 hand-written + 64 generated".to_string(), "4 hand-written + all 4096 generated".to_string()),
+            "all 8192",
+            tier.pick("4 hand-written + 64 generated".to_string(), "4 hand-written + all 8192 generated".to_string()),
             MUTS.len()
         )
     }
@@ -588,9 +594,9 @@ impl Property for C18 {
         }
         // (b2) textual mutations of every scalar
         let mut bases: Vec<String> = BASES.iter().map(|s| (*s).to_string()).collect();
-        let ngen = ctx.tier.pick(64, 4096);
+        let ngen = ctx.tier.pick(64, 8192);
         for k in 0..ngen {
-            let bits = (k * (4096 / ngen) + if ngen < 4096 { (k % 7) * 37 } else { 0 }) as u32 & ((1 << NBITS) - 1);
+            let bits = (k * (8192 / ngen) + if ngen < 8192 { (k % 7) * 37 } else { 0 }) as u32 & ((1 << NBITS) - 1);
             bases.push(yaml(&gen(bits), "Main"));
         }
         for (bi, base) in bases.iter().enumerate() {
